@@ -330,8 +330,8 @@ theorem KS.step {s : SlotBelt} (h : KS s) (op : Op) : KS (s.step op).1 := by
   unfold SlotBelt.step
   have h' : KS { s with fired := [], newReady := [] } := h.congr rfl rfl rfl rfl rfl
   cases op with
-  | reservePut p => exact h'.f5 (reservePut_f5 _ p)
-  | reserveGet p => exact h'.f5 (reserveGet_f5 _ p)
+  | reservePut p => exact h'.f5 (reservePutP_f5 _ p 0)
+  | reserveGet p => exact h'.f5 (reserveGetP_f5 _ p 0)
   | reservePutP p pr => exact h'.f5 (reservePutP_f5 _ p pr)
   | reserveGetP p pr => exact h'.f5 (reserveGetP_f5 _ p pr)
   | put p t x => exact h'.put p t x
